@@ -107,22 +107,33 @@ def analyse(unit, g, vr):
             return lm[line - 1]
         return {'k': 'blank'}
 
-    def locate_clause(o):
+    def pick(cands, sub, col):
+        """several clauses may share a line: choose by column"""
+        on_line = [cl for cl in cands if cl['first_line'] <= sub <= cl['last_line']]
+        if not on_line:
+            return None
+        if len(on_line) == 1 or col is None:
+            return on_line[0]
+        best = None
+        for cl in on_line:
+            if cl['first_line'] < sub or cl.get('first_col', 0) <= col:
+                best = cl
+        return best or on_line[0]
+
+    def locate_clause(o, col=None):
         """o: linemap entry of kind ins -> (label, clause dict or None, where)."""
         cid = o.get('id', '')
         lab = o.get('contract')
         sub = o.get('subline', 0) - 1   # inserted text starts with '\n'
         if cid.startswith('sig:') and lab in clause_tab:
-            for cl in clause_tab[lab]['sig']:
-                if cl['first_line'] <= sub <= cl['last_line']:
-                    return lab, cl, 'sig'
-            return lab, None, 'sig'
+            cl = pick(clause_tab[lab]['sig'], sub, col)
+            return lab, cl, 'sig'
         m = re.match(r'loop(\d+):', cid)
         if m and lab in clause_tab:
             k = int(m.group(1))
-            for cl in clause_tab[lab]['loops'].get(k, []):
-                if cl['first_line'] <= sub <= cl['last_line']:
-                    return lab, dict(cl, loop=k), 'loop%d' % k
+            cl = pick(clause_tab[lab]['loops'].get(k, []), sub, col)
+            if cl:
+                return lab, dict(cl, loop=k), 'loop%d' % k
             return lab, None, 'loop%d' % k
         return lab, None, cid
 
@@ -145,7 +156,7 @@ def analyse(unit, g, vr):
         p0 = prim[0] if prim else (spans[0] if spans else None)
         o = origin(p0['line_start']) if p0 else {'k': 'blank'}
         if kind in ('ensures', 'invariant', 'decreases') and o.get('k') == 'ins':
-            lab, cl, where = locate_clause(o)
+            lab, cl, where = locate_clause(o, (p0.get('column_start') or 1) - 1)
             rec['fn'] = lab
             if cl:
                 rec['clause'] = cl['text']
@@ -181,7 +192,7 @@ def analyse(unit, g, vr):
                 for s in sec:
                     so = origin(s['line_start'])
                     if so.get('k') == 'ins' and so.get('id', '').startswith('sig:'):
-                        clab, cl, _ = locate_clause(so)
+                        clab, cl, _ = locate_clause(so, (s.get('column_start') or 1) - 1)
                         callee = (clab, cl)
                         break
                     if so.get('k') == 'ins' and so.get('id', '').startswith('prelude'):
